@@ -10,7 +10,7 @@ Component kinds follow rustc's discriminants of std::path::Component:
 """
 import re
 
-from .engine import Panic, Unsupported
+from .engine import Panic, Unsupported, strip_generics
 from .values import B, BV, I, UNIT, Adt, BoxRef, Ref, Str, b_and, b_implies, b_not, b_or, i_eq
 
 ROOT, CUR, PARENT, NORMAL = 1, 2, 3, 4
@@ -1329,7 +1329,10 @@ def make_combinators():
         return CallBack(args[1], [], OkOrElseCont())
 
     def m_error_ctor(ex, st, args, callee, ty):
-        return Adt("Error", None, callee.split("::")[-1].split("<")[0], [])
+        if callee.endswith("::into") and args and isinstance(args[0], Adt) and args[0].ty == "Error":
+            return args[0]  # PathError::kind(..).into(): keep the kind
+        parts = [x for x in strip_generics(callee).split("::") if x]
+        return Adt("Error", None, parts[-1] if parts else "error", [])
 
     def m_res_map(ex, st, args, callee, ty):
         r = args[0]
